@@ -160,7 +160,7 @@ Proof.
       apply run_meta_invocation_wf; auto.
       intros rcv' invid' regid' det' args' kw' E c Hc. rewrite Eo in E. inversion E; subst.
       unfold caller_opt in Hc. destruct Hdet as [Hd|Hd]; rewrite Hd in Hc; [discriminate|].
-      apply as_id_vid in Hc; [|apply (rw_ids r W); eapply find_session_In; eauto]. subst c.
+      apply as_id_vid in Hc; [|apply (rw_ids r W s); eapply find_session_In; eauto]. subst c.
       change (client (update_session r callee) (s_id s)). now apply client_update.
   - (* CANCEL *)
     destruct (cancel_frame (lookup r) (r_dealer r) (s_id s) req opts) as [E1 E2].
